@@ -131,7 +131,7 @@ def sliceArm (cfg : Cfg) (tag : String) (t : TyDef) (r : Res Ty) : Res Ty :=
 def mapArm (tag : String) (v : TyDef) (rk rv : Res Ty) : Res Ty :=
   if v.kind = .map then .err else
   match rk, rv with
-  | .ok kc, .ok vc => if vc.isProtoSlice then .err else .ok (.map kc vc (tag == "proto"))
+  | .ok kc, .ok vc => if vc.isProtoSlice || kc.isProtoSlice then .err else .ok (.map kc vc (tag == "proto"))
   | .ok _, e => e
   | e, _ => e
 
@@ -399,8 +399,10 @@ theorem mapArm_ok {tag : String} {v : TyDef} {rk rv : Res Ty} {c : Ty}
     cases rk <;> cases rv <;> simp at h
     rename_i kc vc
     cases hp : vc.isProtoSlice
-    · simp [hp] at h
-      exact ⟨hk, _, _, rfl, rfl, hp, h.symm⟩
+    · cases hq : kc.isProtoSlice
+      · simp [hp, hq] at h
+        exact ⟨hk, _, _, rfl, rfl, hp, h.symm⟩
+      · simp [hp, hq] at h
     · simp [hp] at h
 
 theorem structArm_ok {name : String} {r : Res Fields} {c : Ty} (h : structArm name r = .ok c) :
